@@ -182,7 +182,7 @@ Section SeqProofs.
 
   Lemma handle_step_c_correct :
     forall s h r, coh s h -> creq_in_D r ->
-      let '(s', h', a, lk) := handle_step_c s h r in
+      let '(s', h', a) := handle_step_c s h r in
       s' = fst (ref_creq s (h_gid h) r) /\ delivers r a (snd (ref_creq s (h_gid h) r)) /\
       coh s' h' /\ h_gid h' = h_gid h.
   Proof.
@@ -231,29 +231,25 @@ Section SeqProofs.
 
   Fixpoint delivered (rs : list (@creq wreq query)) (out refs : list (@answer elem err)) : Prop :=
     match rs, out, refs with
+    | [], [], [] => True
     | r :: rs', a :: out', b :: refs' => delivers r a b /\ delivered rs' out' refs'
-    | _, [], _ => True
     | _, _, _ => False
     end.
 
   Theorem cancelled_single_handle :
     forall rs s h, coh s h -> Forall creq_in_D rs ->
-      let '(m, out, lk) := memo_run_c (mkM s [h]) (map (CDo 0) rs) in
-      delivered rs out (ref_answers s (h_gid h) rs) /\ (lk = false -> length out = length rs).
+      delivered rs (snd (memo_run_c (mkM s [h]) (map (CDo 0) rs))) (ref_answers s (h_gid h) rs).
   Proof.
     induction rs as [|r rs IH]; intros s h C DD.
-    - cbn. auto.
+    - cbn. exact I.
     - inversion DD as [|? ? D1 D2]; subst.
       cbn [map Memo.memo_run_c Memo.memo_step_c m_handles m_inner nth_error ref_answers].
       pose proof (handle_step_c_correct s h r C D1) as HS.
-      destruct (handle_step_c s h r) as [[[s' h'] a] lk] eqn:E.
+      destruct (handle_step_c s h r) as [[s' h'] a] eqn:E.
       destruct HS as [Es [Dl [C' G]]]. cbn [upd_nth].
-      destruct lk.
-      + cbn [delivered]. split; [split; [exact Dl|destruct rs; exact I]|discriminate].
-      + specialize (IH s' h' C' D2). rewrite G in IH. rewrite <- Es.
-        destruct (memo_run_c (mkM s' [h']) (map (CDo 0) rs)) as [[m out] lk'].
-        destruct IH as [I1 I2]. cbn [delivered length]. split; [split; assumption|].
-        intro L. rewrite (I2 L). reflexivity.
+      specialize (IH s' h' C' D2). rewrite G in IH. rewrite <- Es.
+      destruct (memo_run_c (mkM s' [h']) (map (CDo 0) rs)) as [m out].
+      cbn [snd delivered] in *. split; assumption.
   Qed.
 
   (* ---------------------------------------------------------------- several handles: the invariant localises the defect.
